@@ -178,11 +178,23 @@ func runSolverOnceCtx(parent context.Context, sp solverSpec, file string, secs i
 // all=true runs all solvers and returns every result (thorough cross-check).
 func solve(file string, secs int, all bool) (Result, []Result) {
 	if all {
+		// thorough: every member of the portfolio runs to its verdict (cross-check: how many of them prove the goal);
+		// members that are still running 20 s after the first proof are stopped - their verdict would not change the result
+		specs := append([]solverSpec{solvers[0], z3EM}, solvers[1:]...)
 		var wg sync.WaitGroup
-		rs := make([]Result, len(solvers))
-		for i, sp := range solvers {
+		rs := make([]Result, len(specs))
+		ctx, cancel := context.WithCancel(context.Background())
+		defer cancel()
+		var once sync.Once
+		for i, sp := range specs {
 			wg.Add(1)
-			go func() { defer wg.Done(); rs[i] = runSolver(sp, file, secs) }()
+			go func() {
+				defer wg.Done()
+				rs[i] = runSolverCtx(ctx, sp, file, secs)
+				if rs[i].Status == "unsat" {
+					once.Do(func() { go func() { time.Sleep(20 * time.Second); cancel() }() })
+				}
+			}()
 		}
 		wg.Wait()
 		best := rs[0]
